@@ -50,7 +50,14 @@ def main():
         try:
             for p in props:
                 t0 = time.time()
-                rc, o = sh(f"./check {p} {tier}", "/verif", timeout=3600)
+                ev = f"/verif/evidence/{p}.json"
+                saved = open(ev).read() if os.path.exists(ev) else None
+                try:
+                    rc, o = sh(f"./check {p} {tier}", "/verif", timeout=3600)
+                finally:
+                    # the evidence file describes runs on the unchanged tree only
+                    if saved is not None:
+                        open(ev, "w").write(saved)
                 viol = [l for l in o.splitlines() if l.startswith("VIOLATION") or l.startswith("  signature") or l.startswith("INCONCLUSIVE") or l.startswith("ENCODING")]
                 results[p] = {"exit": rc, "wall_s": round(time.time()-t0, 1), "lines": viol[:12]}
                 print(f"  {pid}-{tag}{which} vs {p} {tier}: exit={rc}  {len([l for l in viol if l.startswith('VIOLATION')])} violations", flush=True)
